@@ -1,7 +1,7 @@
-ENTRY = {'asan': True,
+ENTRY = {'asan': 'always',
  'modules': ['VirtioVerif.Props.C07', 'VirtioVerif.Props.C04Ledger'],
  'assumptions': ['PARTIAL: memory safety proper (no out-of-bounds or use-after-free access inside the unsafe '
-                 'blocks; supported in the thorough tier by re-running the stream under AddressSanitizer, '
+                 'blocks; supported by re-running the stream under AddressSanitizer in both tiers, '
                  'which is testing, not proof) is not exhibited by the model; the model carries the logic (which indices index '
                  'what, what is unshared, which slice bounds are handed out) with Rust panics as explicit '
                  'outcomes, and the executable behaviour is compared with the real code',
